@@ -136,7 +136,8 @@ def runExternal (toks : List String) : String :=
       let id := k.toNat!
       let ids := if ids.contains id then ids else ids ++ [id]
       let (c', tag) :=
-        if op == '+' then (c.register id (if h == 1 then 1 else 2), "1")
+        -- h = E or EH: equality callback E, hash callback H (0 = none); stored as one code, printed as the harness prints it
+        if op == '+' then (c.register id (if h ≥ 10 then (if h % 10 == 0 then h / 10 else h) else (if h == 1 then 1 else 2)), "1")
         else if op == '-' then (c.unregister id, "u")
         else (c, "q")
       let obs := ",".intercalate (ids.map fun n => s!"{n}={(c'.lookup n).getD 0}")
